@@ -372,7 +372,13 @@ fn main() {
         let nx = if thorough { 12 } else { 2 };
         for &(m, ns, dclass) in &ds {
             let mut xs = dt_values(&mut r, u, nx);
-            if u != 3 { xs.push(((CR_MAX_DAY - 5) * 86_400 * PER_SEC[u], "beyond_ns")); xs.push((-9_300_000_000 * PER_SEC[u], "beyond_ns")) }
+            if u != 3 {
+                xs.push(((CR_MAX_DAY - 5) * 86_400 * PER_SEC[u], "beyond_ns")); xs.push((-9_300_000_000 * PER_SEC[u], "beyond_ns"));
+                // years <= 0 (the `year_ce` before-common-era arm of the month truncation): 0000-02-15, -0003-11-30, 0001-01-01
+                xs.push(((-62_167_219_200 + 45 * 86_400 + 3_723) * PER_SEC[u], "bce"));
+                xs.push(((-62_167_219_200 - 3 * 365 * 86_400 + 333 * 86_400 + 86_399) * PER_SEC[u] + PER_SEC[u] - 1, "bce"));
+                xs.push(((-62_167_219_200 + 366 * 86_400) * PER_SEC[u], "bce"));
+            }
             xs.push((if u == 3 { NAT + 1 } else { -9_223_372_036 * PER_SEC[u] }, "nslimit"));
             for (x, xclass) in xs {
                 let tags = format!("fn=r17_trunc unit={} d={} x={} sign={}", uname(u), dclass, xclass, if x < 0 { "pre1970" } else { "post1970" });
